@@ -35,6 +35,7 @@ var (
 	flagTimeout  = flag.Duration("timeout", 20*time.Second, "per-case watchdog")
 	flagSeed     = flag.Int64("seed", 1, "seed")
 	flagOpt      = flag.String("opt", "", "mode-specific option string")
+	flagPerCase  = flag.Bool("percase", false, "exit (status 5) after every case so that each case gets a fresh process")
 )
 
 type idOnly struct {
@@ -135,6 +136,11 @@ func main() {
 		}
 		out.Write(b)
 		out.WriteByte('\n')
+		if *flagPerCase {
+			out.Flush()
+			outf.Close()
+			os.Exit(5)
+		}
 	}
 	if s, ok := summaries[*flagMode]; ok {
 		res := s()
